@@ -437,6 +437,9 @@ func firstDiff(a, b []string) int {
 // stepLoop: WHILE … IN name with life-cycle statements in the body.  false: no renderable program found.
 // With nest: IF TRUE THEN pre…; WHILE …; post… END IF (the loop may then run over a shadowing cursor).
 func (h *hist) stepLoop(fixed []*litem, fixedName string, fixedPre []*lstmt, fixedNest bool) bool {
+	if !h.valid { // OPEN statements inside the program need the harness' own copy of the table
+		return false
+	}
 	g := h.g
 	var s *sim
 	var header *lstmt
@@ -557,6 +560,9 @@ func (h *hist) stepLoop(fixed []*litem, fixedName string, fixedPre []*lstmt, fix
 
 // stepBlock: the same statements in a nested block (IF TRUE / function call) at top level
 func (h *hist) stepBlock() bool {
+	if !h.valid {
+		return false
+	}
 	g := h.g
 	var s *sim
 	var l []*lstmt
